@@ -52,6 +52,8 @@ ASSUMPTIONS = [
     "reset() without a next() since the previous reset is excluded for them (a reader thread may or may not have started the sampler); "
     "a ParallelMapper with workers is only generated over sub-pipelines that cannot raise (C11)",
     "a raising reset() ends a K-D case (the model does not describe the half-initialised object)",
+    "under adversarial join timeouts a pipeline object with possibly live reader threads is never reset (K-D op lists then use "
+    "fresh objects for reset(state)): reset() of a live Prefetcher/ParallelMapper whose joins give up is the known C12 finding",
 ]
 KNOWN: Dict[str, Any] = {}
 
@@ -72,8 +74,10 @@ def kd_leg(ctx: Ctx, n: int, with_tokens: bool, extra=()):
     for _ in range(n):
         d = nc.gen_pipe(ctx.rng, 4, allow_err=True, p_thread=0.4)
         thr = nc.info(d)["threaded"]
-        ops = nc.gen_ops(ctx.rng, ctx.rng.randrange(4, 16 if thr else 28), with_tokens, strict_epochs=thr)
-        cases.append({"pipe": d, "ops": ops, "sched": nc.gen_sched(ctx.rng)})
+        sc = nc.gen_sched(ctx.rng)
+        ops = nc.gen_ops(ctx.rng, ctx.rng.randrange(4, 16 if thr else 28), with_tokens, strict_epochs=thr,
+                         fresh_only=thr and sc["adv"])
+        cases.append({"pipe": d, "ops": ops, "sched": sc})
     reals = ctx.pmap(_kd_real, cases)
     answers = Driver().run([{"m": "nodes", "pipe": c["pipe"], "ops": c["ops"]} for c in cases])
     seen = set()
@@ -184,8 +188,8 @@ def ko_leg(ctx: Ctx, n: int):
 
 
 def run(ctx: Ctx):
-    kd_leg(ctx, ctx.n(1400, 30000), False)
-    ko_leg(ctx, ctx.n(1000, 25000))
+    kd_leg(ctx, ctx.n(1100, 30000), False)
+    ko_leg(ctx, ctx.n(800, 25000))
 
 
 def escalate(ctx: Ctx):
